@@ -67,6 +67,24 @@ def mapped_projects(r, n):
     return out
 
 
+def multi_clause_projects(r, n):
+    """semantically computed types whose result has several clauses in one DNF, each with recursive parts: every clause that is
+    converted draws the next helper-type name, so the order in which the clauses are visited is visible in the output"""
+    out = []
+    shapes = ['{ kind: "%(k)s"; children: %(n)s[] }', '{ kind: "%(k)s"; next: %(n)s | null; v: number }',
+              '{ kind: "%(k)s"; l: %(n)s | null; r: %(n)s | null }', '{ kind: "%(k)s"; members: Array<{ m: %(n)s }> }']
+    for i in range(n):
+        k = r.randrange(2, 5)
+        names = ["N%d" % j for j in range(k)]
+        decls = ["export type %s = %s;" % (nm, r.choice(shapes) % {"k": nm.lower(), "n": nm}) for nm in names]
+        holder = " | ".join("{ item: %s }" % nm for nm in names)
+        uses = ['export type H = %s;\nexport type T = H["item"];' % holder,
+                'export type T = Exclude<%s | "none", "none">;' % " | ".join(names),
+                'export type H = %s;\nexport type T = { a: H["item"]; b: Exclude<%s | null, null> };' % (holder, " | ".join(names[:2]))]
+        out.append([("entry.ts", "\n".join(decls) + "\n" + uses[i % len(uses)] + "\nparse.buildParsers<{ T: T }>();")])
+    return out
+
+
 def check(run):
     ok = run.prove("Props.C10", THEOREMS, ["Props/C10.vo"])
     common.ensure_harness()
@@ -85,6 +103,7 @@ def check(run):
         projects.append(files)
     projects += diag_projects(r, 40 if quick else 1500)
     projects += mapped_projects(r, 24 if quick else 900)
+    projects += multi_clause_projects(r, 18 if quick else 600)
     runs = 5 if quick else 8
     jobs, meta = [], []
     for pi, files in enumerate(projects):
